@@ -732,6 +732,37 @@ type step struct {
 	Flip   uint32  `json:"case_flip"`
 	Srv    int     `json:"srv"`
 	ECS    ecsSpec `json:"ecs"`
+	// Alias: the query asks for aliasLabel + the question's name; the filter
+	// of the stack rewrites it (like a $dnsrewrite CNAME rule) to the
+	// question's name, so the request travels the rewritten-request path of the
+	// filtering middleware and shares the cache with direct queries.
+	Alias bool `json:"alias,omitempty"`
+}
+
+const aliasLabel = "cname-alias."
+
+// aliasStorage is a filter.Storage whose filter rewrites every question that
+// starts with aliasLabel to the rest of the name, the way the rule-list
+// filters do for CNAME rewrite rules.
+type aliasStorage struct{}
+
+func (aliasStorage) ForConfig(context.Context, filter.Config) filter.Interface { return aliasFilter{} }
+func (aliasStorage) HasListID(filter.ID) bool                                  { return false }
+
+type aliasFilter struct{}
+
+func (aliasFilter) FilterRequest(_ context.Context, req *filter.Request) (filter.Result, error) {
+	name := req.DNS.Question[0].Name
+	if len(name) <= len(aliasLabel) || !strings.EqualFold(name[:len(aliasLabel)], aliasLabel) {
+		return nil, nil
+	}
+	mod := req.DNS.Copy()
+	mod.Question[0].Name = name[len(aliasLabel):]
+	return &filter.ResultModifiedRequest{Msg: mod, List: "c05_alias", Rule: "|cname-alias.*^$dnsrewrite=NOERROR;CNAME;*"}, nil
+}
+
+func (aliasFilter) FilterResponse(context.Context, *filter.Response) (filter.Result, error) {
+	return nil, nil
 }
 
 type history struct {
@@ -831,6 +862,9 @@ func newHistoryIn(rng *rand.Rand, variant string, idx int, w *world) *history {
 			s.Flip = 0
 		}
 		s.ECS = genECS(rng, h.World, s.Client)
+		// (a function of the indices, so that the draws above stay what they
+		// were before aliases existed)
+		s.Alias = (uint32(i)*2654435761+uint32(idx)*40503)>>7%6 == 0
 		h.Steps = append(h.Steps, s)
 	}
 	return h
@@ -1085,7 +1119,11 @@ func subnetOpt(e *ecsSpec) *dns.EDNS0_SUBNET {
 // when the DNS library accepts them ("wire"), otherwise the same option as a
 // message structure ("struct").
 func buildQuery(id uint16, q *question, s *step) (m *dns.Msg, via string) {
-	name := flipCase(q.Name, s.Flip)
+	name := q.Name
+	if s.Alias {
+		name = aliasLabel + name
+	}
+	name = flipCase(name, s.Flip)
 	var opts [][]byte
 	if s.ECS.Kind != "none" {
 		opts = append(opts, ecsWire(&s.ECS))
@@ -1302,6 +1340,9 @@ func (rn *runner) upstream(ctx context.Context, req *dns.Msg, _ *agd.RequestInfo
 
 // payloadOf extracts the upstream call number from a client response.
 func payloadOf(m *dns.Msg) (n int, ok bool) {
+	if m == nil {
+		return 0, false
+	}
 	for _, rr := range m.Answer {
 		switch v := rr.(type) {
 		case *dns.A:
@@ -1357,6 +1398,7 @@ func newRunner(h *history, yield func()) (*runner, error) {
 		Cache: &dnssvc.CacheConfig{Type: dnssvc.CacheTypeECS, ECSCount: h.Cache.ECSCount, NoECSCount: h.Cache.NoECSCount,
 			MinTTL: h.Cache.MinTTL, OverrideCacheTTL: h.Cache.Override},
 		GeoIP:           gi,
+		FilterStorage:   aliasStorage{},
 		Upstream:        rn.upstream,
 		ServerGroups:    []*agd.ServerGroup{group},
 		FilteringGroups: filteringGroups,
@@ -1472,7 +1514,11 @@ func stepStr(h *history, i int) string {
 		}
 	}
 	c := h.World.Clients[s.Client]
-	return fmt.Sprintf("#%d client%d %s loc%d q%d %s/%d do=%v ecs[%s]", i, s.Client, c.Addr, c.Loc, s.Q, q.Name, q.Qtype, s.DO, e)
+	name := q.Name
+	if s.Alias {
+		name = aliasLabel + name
+	}
+	return fmt.Sprintf("#%d client%d %s loc%d q%d %s/%d do=%v ecs[%s]", i, s.Client, c.Addr, c.Loc, s.Q, name, q.Qtype, s.DO, e)
 }
 
 func msgStr(m *dns.Msg) string {
@@ -1530,6 +1576,15 @@ func (rn *runner) check(r *vkit.Run, observed []*obs, sequential bool) {
 		} else if w.Real != nil && cls == "valid" && s.ECS.Bits > 0 {
 			if pl := w.locOf(s.ECS.prefix().Addr()); pl >= 0 {
 				noteCountry(w.Countries[pl], false)
+			}
+		}
+		if s.Alias {
+			r.Bucket("alias_requests", 1)
+			if cls != "none" && cls != "malformed" {
+				r.Bucket("alias_requests_with_ecs_option", 1)
+			}
+			if s.ECS.declined() {
+				r.Bucket("alias_requests_optout", 1)
 			}
 		}
 		r.Bucket("ecs_kind:"+s.ECS.Kind, 1)
@@ -1803,6 +1858,9 @@ func (rn *runner) check(r *vkit.Run, observed []*obs, sequential bool) {
 		if q.Fake {
 			mode += "-fakelist"
 		}
+		if s.Alias {
+			served += "/alias"
+		}
 		r.Eval(fmt.Sprintf("c%d/%s/%s/%s/t%d/do%v/%s", famOf(cl.Addr), locKind, ecsClass, mode, q.Qtype, s.DO, served), nontrivial)
 	}
 }
@@ -2072,6 +2130,7 @@ func TestCheck(t *testing.T) {
 		"malformed: bad family, family 0, prefix too long, bits beyond prefix, bad address length; irregular-but-lenient wire forms; two options} x 4 questions " +
 		"(upstream scope script: no OPT, no ECS, scope 0, =source, <source, >source, fixed 16, alternating, NXDOMAIN; names from the fake-ECS list; TTL 0/2/3600) x DO; " +
 		"one evaluation per request; class = (client family, location kind, ECS class+family, upstream mode, qtype, DO, fresh/cached-scoped/cached-unscoped/cached-fakelist); " +
+		"one request in six asks an alias name that the filter rewrites to the question's name (CNAME-rewrite path of the filtering middleware); " +
 		"a second phase runs the same histories with the real geoip.File on the repository's test databases (clients and options from database networks of >=3 countries per family, " +
 		"IPv6-family options with IPv4-mapped addresses, small and large GeoIP IP cache); " +
 		"non-trivial = the request carried an ECS option, or came from a located client, or was served from the cache, or went upstream past a cached answer of another subnet")
@@ -2152,6 +2211,8 @@ func TestCheck(t *testing.T) {
 	r.Require("echo_ok", 2000)
 	r.Require("echo_absent_ok", 2000)
 	r.Require("concurrent_requests", 2000)
+	r.Require("alias_requests_with_ecs_option", 1000)
+	r.Require("alias_requests_optout", 200)
 	r.Require("realgeo_requests", 3000)
 	r.Require("realgeo_mapped_option_requests", 400)
 	r.Require("realgeo_mapped_option_after_mapped_option_of_other_country", 200)
